@@ -136,6 +136,11 @@ def _run_pts(case):
     # ranges
     phi_s, phi_c, theta = sph[2], cyl[1], sph[1]
     flags["phi_range"] = bool(np.all((phi_s >= 0) & (phi_s <= TWO_PI) & (phi_c >= 0) & (phi_c <= TWO_PI)))
+    # ... also when the azimuth that goes in is written outside that range (arctan2's convention, several turns): cylindrical <-> spherical
+    for shift_ in (-TWO_PI, -math.pi, 3 * TWO_PI):
+        ps_ = np.asarray(y2s([cyl[0], cyl[1] + shift_, cyl[2]]))[2]
+        pc_ = np.asarray(s2y([sph[0], sph[1], sph[2] + shift_]))[1]
+        flags["phi_range"] &= bool(np.all((ps_ >= 0) & (ps_ <= TWO_PI) & (pc_ >= 0) & (pc_ <= TWO_PI)))
     flags["theta_range"] = bool(np.all((theta >= 0) & (theta <= math.pi)))
     flags["finite"] = bool(np.all(np.isfinite(sph)) and np.all(np.isfinite(cyl)))
     # phi == 2pi only where the exact angle is a rounding distance below 2pi
